@@ -30,6 +30,11 @@ class SpuriousCancel(Exception):
 STATEFUL = {"iso2022_jp": ["日本", "語", "かな", "カ"], "shift_jis_2004": ["日本", "語", "ｶﾅ", "〜"], "hz": ["中文", "汉", "字"]}
 
 
+async def _anothing():
+    return
+    yield
+
+
 def _fits(c, charset):
     try:
         return c.encode(charset).decode(charset) == c
@@ -146,7 +151,10 @@ class C19(Prop):
                 # (ASGI) loop iterations take (virtual) time: timers may fall due between callbacks of one instant
                 "tick": t.draw(2) == 0,
                 # the request method (fetch-style clients POST to an event stream)
-                "method": t.choice(["GET", "GET", "GET", "POST"])}
+                "method": t.choice(["GET", "GET", "GET", "POST"]),
+                # one caller-owned headers dict (an application constant) is handed to a sibling event stream with another
+                # charset first, then to the response under test
+                "shared_headers": t.draw(5) == 0}
         if surface == "wsgi-sse":
             plan["preempt"] = t.choice([(0, 1), (1, 20), (1, 5)])
             plan["cdelays"] = [t.choice((0.0, 0.0, 0.001, P / 2, P + 0.001)) for _ in range(6)]
@@ -210,7 +218,7 @@ class C19(Prop):
                     return gen()
 
             peer = AsgiHttpPeer(loop, ctx, ctx.sched, AbstractRequest(plan.get("method", "GET"), "/"), send_lats=lats, surface="asgi-sse", recv_raises_after_script=plan.get("recv_raises", False))
-            r = SendEventResponse(Feed() if plan.get("reuse") else gen(), ping_interval=P, charset=plan["charset"])
+            r = SendEventResponse(Feed() if plan.get("reuse") else gen(), ping_interval=P, charset=plan["charset"], headers=self._common_headers(plan, ctx, SendEventResponse))
             exc = None
 
             async def call(p):
@@ -283,7 +291,7 @@ class C19(Prop):
             reuse_out = {}
 
             def consumer():
-                resp = SendEventResponse(Feed() if plan.get("reuse") else gen(), ping_interval=P, charset=plan["charset"])
+                resp = SendEventResponse(Feed() if plan.get("reuse") else gen(), ping_interval=P, charset=plan["charset"], headers=self._common_headers(plan, ctx, SendEventResponse))
                 if plan.get("reuse"):
                     ctx.probe("response_object_reused")
                     p0 = WsgiPeer(ctx, ctx.sched, AbstractRequest(plan.get("method", "GET"), "/"), surface="wsgi-sse")
@@ -309,6 +317,15 @@ class C19(Prop):
             return None
         self._check_ctype(plan, ctx, "wsgi-sse", ctype)
         return items
+
+    def _common_headers(self, plan, ctx, cls):
+        if not plan.get("shared_headers"):
+            return None
+        ctx.probe("headers_dict_shared_between_responses")
+        common = {"X-Accel-Buffering": "no"}
+        other = "latin-1" if plan["charset"] != "latin-1" else "utf-8"
+        cls(iter(()) if "wsgi" in cls.__module__ else _anothing(), charset=other, headers=common)
+        return common
 
     def _check_ctype(self, plan, ctx, surf, ctype):
         ok = isinstance(ctype, str) and ctype.lower().startswith("text/event-stream") and ("charset=%s" % plan["charset"]) in ctype.lower()
